@@ -59,9 +59,11 @@ def canonGo : Bool → Bytes → Bytes
 /-- textproto.CanonicalMIMEHeaderKey: unchanged unless every byte is a token byte -/
 def canon (s : Bytes) : Bytes := if s.all isTchar then canonGo true s else s
 
-/-- the names appended to the hop list: canonical forms of the non-empty tokens of `Header["Connection"]` -/
+/-- the names appended to the hop list: canonical forms of the non-empty tokens of `Header["Connection"]`,
+    except the headers BFE sets itself (`hopByHopProtected`, second fix: a client cannot strip X-Real-Ip etc.) -/
 def connNames (h : Hdr) : List Bytes :=
-  ((lookup h kConnection).flatMap fun f => (splitOn 44 f).map trimSpace).filter (!·.isEmpty) |>.map canon
+  (((lookup h kConnection).flatMap fun f => (splitOn 44 f).map trimSpace).map canon).filter
+    fun n => !n.isEmpty && !BfeVerif.Generated.C26.hopProtected.contains n
 
 def hopList (hop : List Bytes) (h : Hdr) : List Bytes := hop ++ connNames h
 
@@ -97,8 +99,10 @@ def connTokens (h : Hdr) : List Bytes :=
   let vals := (h.filter fun kv => eqFold kv.1 kConnection).flatMap (·.2)
   (vals.flatMap fun v => (splitOn 44 v).map fun t => (trimOWS t).map lower).filter (!·.isEmpty)
 
-/-- fields `Request.write` emits itself; a Connection token naming one of them is not a client field -/
-def ownLower : List Bytes := [kHost, kContentLength].map (·.map lower)
+/-- fields `Request.write` emits itself and headers BFE sets itself (client address, log id): a Connection
+    token naming one of them does not make it the client's hop-by-hop field -/
+def ownLower : List Bytes :=
+  ([kHost, kContentLength] ++ BfeVerif.Generated.C26.hopProtected).map (·.map lower)
 
 /-- first violation among the fields `fs` that reached the backend for client header map `h` -/
 def violation (h : Hdr) (fs : List (Bytes × Bytes)) : Option String :=
